@@ -266,6 +266,11 @@ def _same_type_hint(B, adt):
         hint = x[3]
     elif x[0] == "call" and len(x) > 3 and x[3] and x[3][0] == "meta":
         hint = x[3][1]
+    elif x[0] == "call" and x[1].startswith("cw_storage_plus::") and x[2] and x[2][0][0] == "item":
+        # a read of a storage item (as synthesised for the parameter of an `ITEM.update` closure): the item's value type
+        import engine.mir as _m
+        ib_ = _m.CURRENT.bodies.get(x[2][0][1]) if _m.CURRENT is not None else None
+        hint = (ib_.j.get("ret_ty") or "") if ib_ is not None else None
     elif x[0] == "stored":
         return True
     elif x[0] == "upd" or x[0] == "mut":
